@@ -441,6 +441,8 @@ class Interp:
                 base = obj.recv if isinstance(obj, BoundModel) else None
                 if isinstance(base, SVar):
                     self.mutate(base, t, f'store into .{obj.name}[...]')
+                    if hasattr(self.model, 'bound_store'):
+                        self.model.bound_store(self, obj, key, val, t)
             elif hasattr(obj, '__setitem__') and not isinstance(obj, dict | list):
                 obj[key] = val
         else:
